@@ -111,7 +111,7 @@ def sections_with(text, option):
 
 
 @st.composite
-def config_case(draw, bases=None, generated=True, min_end=None, sampling_focus=False, small_sampling=False, g4_one_in=8, g5_one_in=8,
+def config_case(draw, bases=None, generated=True, min_end=None, sampling_focus=False, small_sampling=False, g4_one_in=8, g5_one_in=8, g6_one_in=8,
                 cells_only=False,
                 composites_only=False, max_events=(300, 1500)):
     """A configuration = shipped base + parameter edits (never wiring edits) + simulation seed + event budget."""
@@ -134,6 +134,25 @@ def config_case(draw, bases=None, generated=True, min_end=None, sampling_focus=F
             edits.append(("FinalTimeEndOfRunEventHandler", "end_of_run_time",
                           repr(round(draw(st.floats(min_end[0], min_end[1])), 4))))
         return {"base": G4, "g4_N": N, "edits": [list(e) for e in edits], "seed": draw(st.integers(0, 2 ** 31)),
+                "events": draw(st.integers(max_events[0], max_events[1])), "cluster": "lattice"}
+    if generated and bases is None and draw(st.integers(0, g6_one_in - 1)) == 0:
+        # generated family G6 (hard-disk dipoles with a cell system, velocities of either sign)
+        N = draw(st.integers(2, 6))
+        general = draw(st.booleans())
+        eoc = ("SingleIndependentActiveSequentialDirectionEndOfChainEventHandler" if general else
+               "SingleIndependentActivePeriodicDirectionEndOfChainEventHandler")
+        edits = [(eoc, "chain_time", repr(round(draw(st.floats(0.3, 3.0)), 4))),
+                 ("PolarizationSamplingEventHandler", "sampling_interval", repr(round(draw(st.floats(0.2, 5.0)), 4)))]
+        if general:
+            edits.append((eoc, "delta_phi_degree", repr(draw(st.sampled_from([20.0, 45.0, 90.0, 100.0, 135.0, 170.0])))))
+        if draw(st.booleans()):
+            edits.append(("SingleProcessMediator", "scheduler", draw(st.sampled_from(["heap_scheduler",
+                                                                                      "list_scheduler"]))))
+        if min_end is not None:
+            edits.append(("FinalTimeEndOfRunEventHandler", "end_of_run_time",
+                          repr(round(draw(st.floats(min_end[0], min_end[1])), 4))))
+        return {"base": G6, "g6": {"N": N, "general": general, "wide_cells": draw(st.booleans())},
+                "edits": [list(e) for e in edits], "seed": draw(st.integers(0, 2 ** 31)),
                 "events": draw(st.integers(max_events[0], max_events[1])), "cluster": "lattice"}
     if generated and not composites_only and bases is None and draw(st.integers(0, g5_one_in - 1)) == 0:
         # generated family G5 (cell system in a non-cubic box, 2-D or 3-D)
@@ -270,6 +289,43 @@ def g4_text(N):
     return text
 
 
+G6 = "G6:hard_disk_dipoles_cells"
+
+
+def g6_text(N, general, wide_cells):
+    """Generated family G6: the shipped hard_disk_dipoles_cells.ini wiring (hard-sphere pairs through the excluded-cells
+    tagger, point masses in cells, cell-boundary events) with the PDB input handler (needs MDAnalysis, absent) replaced
+    by the random input handler as in G4.  `general` swaps the shipped periodic-direction end-of-chain handler for the
+    sequential-direction one of hard_disk_dipoles.ini (the section is copied from there), so that velocity components
+    of either sign occur and cell walls - including the periodic one - are crossed downwards.  The cell side is 1.0 or
+    1.5, never below the hard-sphere diameter 0.952."""
+    import math
+    text = shipped_text("hard_disk_dipoles/hard_disk_dipoles_cells.ini")
+    m = max(2, math.ceil(math.sqrt(N) - 1e-9))
+    text = set_option(text, "HypercubicSetting", "system_length", repr(3.0 * m))
+    text = set_option(text, "CuboidPeriodicCells", "cells_per_side", str(2 * m if wide_cells else 3 * m))
+    text = set_option(text, "InputOutputHandler", "input_handler", "random_input_handler")
+    lines, skip = [], False
+    for line in text.splitlines():
+        if line.strip() == "[PdbInputHandler]":
+            skip = True
+            continue
+        if skip and line.startswith("["):
+            skip = False
+        if not skip:
+            lines.append(line)
+    text = "\n".join(lines) + "\n"
+    text += ("\n[RandomInputHandler]\nrandom_node_creator = dipole_random_node_creator\nnumber_of_root_nodes = %d\n"
+             "\n[DipoleRandomNodeCreator]\ncharge_values = electric_charge_values (charge_values)\n"
+             "min_initial_dipole_separation = 0.96\nmax_initial_dipole_separation = 1.04\n" % N)
+    if general:
+        text = set_option(text, "EndOfChain", "event_handler",
+                          "single_independent_active_sequential_direction_end_of_chain_event_handler")
+        text += ("\n[SingleIndependentActiveSequentialDirectionEndOfChainEventHandler]\nchain_time = 1.0\n"
+                 "delta_phi_degree = 20.0\n")
+    return text
+
+
 G5 = "G5:cuboid_box_cells"
 
 
@@ -299,6 +355,11 @@ def g5_text(lengths, per_side, N, power):
 def materialise(case):
     if case["base"] == G5:
         text = g5_text(case["g5"]["lengths"], case["g5"]["per_side"], case["g5"]["N"], case["g5"]["power"])
+        for sec, opt, val in case["edits"]:
+            text = set_option(text, sec, opt, val)
+        return text
+    if case["base"] == G6:
+        text = g6_text(case["g6"]["N"], case["g6"]["general"], case["g6"]["wide_cells"])
         for sec, opt, val in case["edits"]:
             text = set_option(text, sec, opt, val)
         return text
